@@ -23,7 +23,7 @@ RULE = ('$-free scalars, flat and nested maps and lists (list-valued and empty-s
 ASSUMPTIONS = ['text form of floats and of non-scalars inside base64/sha256/join/prefix/tolist is not judged (values there are strings, integers, booleans)',
                'strings containing $ are not generated']
 
-STR = ['a', 'b', 'x y', '', '1', 'true', 'null', 'ünï', 'a=b', 'k:v', '-', '--v', 'q"', "s'", 'a,b', '0x10', 'No', '~', 'line', '[x]', '{y}', '#c', '*s', '&a']
+STR = ['title\n---\nbody', 'a\n...\nb', 'x\n+++\ny', 'k: v\n- x\n# c', 'two\nlines\n', 'a', 'b', 'x y', '', '1', 'true', 'null', 'ünï', 'a=b', 'k:v', '-', '--v', 'q"', "s'", 'a,b', '0x10', 'No', '~', 'line', '[x]', '{y}', '#c', '*s', '&a']
 FORMATS = ['json', 'yaml', 'toml', 'jsonl', 'json-pretty', 'yml']
 
 
@@ -170,7 +170,7 @@ def value(rng, want, floats=False):
     return gen.tree(rng, 3, 3, nulls=False, root=rng.choice(['map', 'list']), pool=STR[:8] + [0, 1, 2, 1.5, True])
 
 
-GOOD = ['base64', 'sha256', 'json', 'yaml', 'toml', 'jsonl', 'json-pretty', 'yml', 'join', 'join:,', 'join: ', 'join:/', 'prefix:X', 'prefix:--', 'prefix:', 'flatten',
+GOOD = ['prefix:100%', 'prefix:%s', 'prefix:%d%%', 'join:%', 'join:%s', 'tolist:%', 'tolist:%v', 'base64', 'sha256', 'json', 'yaml', 'toml', 'jsonl', 'json-pretty', 'yml', 'join', 'join:,', 'join: ', 'join:/', 'prefix:X', 'prefix:--', 'prefix:', 'flatten',
         'tolist:=', 'tolist: ', 'tolist:', 'values', 'flags']
 BAD = ['base64:x', 'sha256:1', 'flatten:1', 'values:x', 'json:x', 'yaml:1', 'prefix', 'tolist', 'join:a:b', 'prefix:a:b', 'tolist:=:x', 'nosuch', 'nosuch:1', 'Base64', '', 5, True, {'a': 1},
        'flags:x']
